@@ -77,7 +77,7 @@ def zq(rng, n, extreme=False):
     for _ in range(n):
         r = rng.random()
         if extreme and r < 0.15:
-            out.append(rng.choice([-8.0, 8.0, -5.5, 6.5, 1e-300, -1e-300, 1e-12, -1e-12]))
+            out.append(rng.choice([-8.0, 8.0, -5.5, 6.5, 1e-300, -1e-300, 1e-12, -1e-12, 0.0, -0.0]))
         elif r < 0.3:
             out.append(rng.choice([-2.0, -1.0, -0.5, 0.5, 1.0, 1.5, 2.0, 2.5, -2.5, 3.0]))
         else:
@@ -211,16 +211,22 @@ def discrete_cases(rng, out, n, bounded, extreme=False):
                         used.append(v)
                         k += 1
                         d = int(round(v, 0)) if succ[p] else int(numpy.sign(v) * numpy.ceil(abs(v)))
-                        if bnd[p][0] <= fromx[p] + d <= bnd[p][1]:
+                        if bnd[p][0] <= fromx[p] + d <= bnd[p][1] and (succ[p] or d != 0):
                             break
                     terms.append('CBDJ %s %s %s %s %s %s %d%%nat' % (core.cbool(succ[p]), core.cZ(bnd[p][0]), core.cZ(bnd[p][1]), core.cZ(fromx[p]),
                                                                     fl(used), core.cZ(res[p]), len(used)))
                     metas.append(dict(family=prop.name, kind='jump', param=p, fromx=fromx[p], draws=used, result=int(res[p])))
                 else:
-                    v = sc.normals[k]
-                    k += 1
-                    terms.append('CNDJ %s %s %s %s' % (core.cbool(succ[p]), core.cZ(fromx[p]), core.cfloat(v), core.cZ(res[p])))
-                    metas.append(dict(family=prop.name, kind='jump', param=p, fromx=fromx[p], draw=v, result=int(res[p])))
+                    used = []
+                    while True:
+                        v = sc.normals[k]
+                        used.append(v)
+                        k += 1
+                        d = int(round(v, 0)) if succ[p] else int(numpy.sign(v) * numpy.ceil(abs(v)))
+                        if succ[p] or d != 0:
+                            break
+                    terms.append('CNDJ %s %s %s %s %d%%nat' % (core.cbool(succ[p]), core.cZ(fromx[p]), fl(used), core.cZ(res[p]), len(used)))
+                    metas.append(dict(family=prop.name, kind='jump', param=p, fromx=fromx[p], draws=used, result=int(res[p])))
             out.count('discrete_jumps')
         out.count(prop.name)
     return terms, metas
